@@ -971,6 +971,8 @@ func ruleOpt(c *Ctx) {
 			d0 := ac.describe(stripConv(a[0]))
 			if !strings.Contains(d0, "op.ScaleNote.Semitone(") || !strings.Contains(d0, "Tonic") {
 				problem = "the key byte is not the semitone of the scale's tonic (" + d0 + ")"
+			} else if !strings.Contains(d0, "op.NewScale(") && !strings.Contains(d0, "op.MustNewScale(") {
+				problem = "the scale the signature is taken from is not the one just built from the cell's key (a remembered scale survives a change to another key with the same letter): " + d0
 			}
 			if u, ok := stripThroughLocal(a[1]).(*ssa.UnOp); !ok || u.Op != token.NOT {
 				problem = "isMajor is not !Minor"
